@@ -19,6 +19,7 @@ where
         "fri" => symf::fri::family::<F>(ctx),
         "plonk" => symf::plonk::family::<F>(ctx),
         "plonkv" => symf::plonkv::family::<F>(ctx),
+        "stark" => symf::stark::family::<F>(ctx),
         "transcript" => symf::transcript::family::<F>(ctx),
         _ => panic!("unknown family {family}"),
     }
